@@ -1,12 +1,27 @@
+/* debugging aid: dump the token tree (optionally after an export) with link consistency marks */
 #include <stdio.h>
 #include <stdlib.h>
 #include <string.h>
 #include "libMultiMarkdown.h"
+#include "d_string.h"
 #include "token.h"
 #include "mmd.h"
-static void dump(token*t,int d,const char*s){ for(;t;t=t->next){ printf("%*s%d [%lu,%lu) '%.*s'\n",d*2,"",t->type,t->start,t->len,(int)(t->len>20?20:t->len),s+t->start); if(t->child)dump(t->child,d+1,s);} }
-int main(int c,char**v){ 
+static void dump(token *t, int d, const char *s) {
+	token *prev = NULL;
+	for (; t; t = t->next) {
+		printf("%*s%d [%lu,%lu) '%.*s'%s%s\n", d * 2, "", t->type, t->start, t->len, (int)(t->len > 20 ? 20 : t->len), s + t->start,
+		       (prev && t->prev != prev) ? "  <-- prev mismatch" : "", (t->mate && t->mate->mate != t) ? " <-- mate asym" : "");
+		if (t->child) dump(t->child, d + 1, s);
+		prev = t;
+	}
+}
+int main(int c, char **v) {
 #ifdef kUseObjectPool
-token_pool_init();
+	token_pool_init();
 #endif
- mmd_engine*e=mmd_engine_create_with_string(v[1],strtoul(v[2],0,0)); mmd_engine_parse_string(e); dump(mmd_engine_root(e),0,v[1]); return 0;}
+	mmd_engine *e = mmd_engine_create_with_string(v[1], strtoul(v[2], 0, 0));
+	mmd_engine_parse_string(e);
+	if (c > 3) { DString *o = d_string_new(""); mmd_engine_export_token_tree(o, e, atoi(v[3])); printf("%s\n----\n", o->str); }
+	dump(mmd_engine_root(e), 0, v[1]);
+	return 0;
+}
